@@ -67,6 +67,8 @@ type c14Case struct {
 	Datas    [][]string `json:"datas,omitempty"` // per family: [hex of WT value, hex of WO value, hex of []WT value]
 	DelaysUs []int      `json:"delays_us,omitempty"`
 	BDest    string     `json:"bdest,omitempty"` // PT | O | S
+	// poolusers: names of catalogue steps
+	Steps []string `json:"steps,omitempty"`
 }
 
 type sessObs struct {
@@ -89,6 +91,7 @@ type c14Obs struct {
 	ErrA     string     `json:"err_after,omitempty"`
 	Outs     []string   `json:"outs,omitempty"`
 	Rounds   [][]string `json:"rounds,omitempty"`
+	Excl     []string   `json:"excl,omitempty"` // after each step: "ok" or what the pools handed out twice
 	Errs     []string   `json:"errs,omitempty"`
 	Hook     bool       `json:"hook"`
 	Note     string     `json:"note,omitempty"`
@@ -1059,6 +1062,280 @@ func runDecRace(c *c14Case, obs *c14Obs) {
 	}
 }
 
+// ---------------------------------------------------------------------------------- users of the pools
+// Every entry point that takes a coder from a pool is driven through its exits; after each step the
+// pools must still be exclusive: consecutive Get*() calls return pairwise distinct objects and none of
+// the objects the harness is holding (sentinels) is handed out again.
+type heldCoders struct {
+	dec []*io.Decoder
+	enc []*io.Encoder
+}
+
+func (h *heldCoders) exclusive() string {
+	const n = 6
+	res := "ok"
+	var ds []*io.Decoder
+	var es []*io.Encoder
+	for i := 0; i < n; i++ {
+		d := io.GetDecoder()
+		for _, x := range h.dec {
+			if x == d && res == "ok" {
+				res = "a decoder the harness is holding was handed out again by GetDecoder"
+			}
+		}
+		dup := false
+		for j, x := range ds {
+			if x == d {
+				dup = true
+				if res == "ok" {
+					res = fmt.Sprintf("GetDecoder call %d and call %d returned the same *Decoder", j+1, i+1)
+				}
+			}
+		}
+		if !dup {
+			ds = append(ds, d)
+		}
+		e := io.GetEncoder()
+		for _, x := range h.enc {
+			if x == e && res == "ok" {
+				res = "an encoder the harness is holding was handed out again by GetEncoder"
+			}
+		}
+		dup = false
+		for j, x := range es {
+			if x == e {
+				dup = true
+				if res == "ok" {
+					res = fmt.Sprintf("GetEncoder call %d and call %d returned the same *Encoder", j+1, i+1)
+				}
+			}
+		}
+		if !dup {
+			es = append(es, e)
+		}
+	}
+	// keep one of each as a sentinel (up to 4), give the others back once
+	if len(h.dec) < 4 && len(ds) > 0 {
+		h.dec = append(h.dec, ds[0])
+		ds = ds[1:]
+	}
+	if len(h.enc) < 4 && len(es) > 0 {
+		h.enc = append(h.enc, es[0])
+		es = es[1:]
+	}
+	for _, d := range ds {
+		io.FreeDecoder(d)
+	}
+	for _, e := range es {
+		io.FreeEncoder(e)
+	}
+	return res
+}
+
+func poolStep(step string, plain, missing *core.Service) (out string) {
+	defer func() {
+		if e := recover(); e != nil {
+			out = "panic"
+		}
+	}()
+	class := func(err error) string {
+		if err == nil {
+			return "ok"
+		}
+		return "err"
+	}
+	sdec := func(svc *core.Service, req string, nilctx bool) string {
+		var ctx *core.ServiceContext
+		if !nilctx {
+			ctx = core.NewServiceContext(svc)
+		}
+		name, args, err := core.NewServiceCodec().Decode([]byte(req), ctx)
+		return fmt.Sprintf("%s:%s:%d", class(err), name, len(args))
+	}
+	cdec := func(resp string, nilctx bool, rt ...reflect.Type) string {
+		var ctx *core.ClientContext
+		if !nilctx {
+			ctx = core.NewClientContext()
+			ctx.ReturnType = rt
+		}
+		res, err := core.NewClientCodec().Decode([]byte(resp), ctx)
+		return fmt.Sprintf("%s:%d", class(err), len(res))
+	}
+	intT, strT := reflect.TypeOf(0), reflect.TypeOf("")
+	switch step {
+	case "sdec.ok":
+		return sdec(plain, `Cs3"add"a2{12}z`, false)
+	case "sdec.simplehdr":
+		return sdec(plain, `Hm1{s6"simple"t}Cs3"add"a2{12}z`, false)
+	case "sdec.unknown":
+		return sdec(plain, `Cs4"nope"a1{1}z`, false)
+	case "sdec.unknown-missing-handler":
+		return sdec(missing, `Cs4"nope"a2{1s2"ab"}z`, false)
+	case "sdec.argerr":
+		return sdec(plain, `Cs3"add"a2{s1"x"Z}z`, false)
+	case "sdec.badtag":
+		return sdec(plain, `Xyz`, false)
+	case "sdec.empty":
+		return sdec(plain, ``, false)
+	case "sdec.end":
+		return sdec(plain, `z`, false)
+	case "sdec.hdrerr":
+		return sdec(plain, `Hm1{Z`, false)
+	case "sdec.trunc":
+		return sdec(plain, `Cs3"ad`, false)
+	case "sdec.noargs":
+		return sdec(plain, `Cs3"add"z`, false)
+	case "sdec.panic":
+		return sdec(plain, `Cs3"add"a2{12}z`, true)
+	case "senc.ok":
+		_, err := core.NewServiceCodec().Encode("result", core.NewServiceContext(plain))
+		return class(err)
+	case "senc.simple":
+		_, err := core.NewServiceCodec(core.WithSimple(true)).Encode([]interface{}{1, "a"}, core.NewServiceContext(plain))
+		return class(err)
+	case "senc.err":
+		_, err := core.NewServiceCodec().Encode(errors.New("boom"), core.NewServiceContext(plain))
+		return class(err)
+	case "senc.panicerr":
+		_, err := core.NewServiceCodec(core.WithDebug(true)).Encode(core.NewPanicError("p"), core.NewServiceContext(plain))
+		return class(err)
+	case "senc.unsupported":
+		_, err := core.NewServiceCodec().Encode(make(chan int), core.NewServiceContext(plain))
+		return class(err)
+	case "senc.panic":
+		_, err := core.NewServiceCodec(core.WithSimple(true)).Encode(1, nil)
+		return class(err)
+	case "cenc.ok":
+		_, err := core.NewClientCodec().Encode("add", []interface{}{1, 2}, core.NewClientContext())
+		return class(err)
+	case "cenc.simple":
+		_, err := core.NewClientCodec(core.WithSimple(true)).Encode("add", []interface{}{"a", "a"}, core.NewClientContext())
+		return class(err)
+	case "cenc.unsupported":
+		_, err := core.NewClientCodec().Encode("add", []interface{}{make(chan int)}, core.NewClientContext())
+		return class(err)
+	case "cenc.panic":
+		_, err := core.NewClientCodec(core.WithSimple(true)).Encode("add", nil, nil)
+		return class(err)
+	case "cdec.ok":
+		return cdec(`Rs2"ok"z`, false, strT)
+	case "cdec.error":
+		return cdec(`Es3"err"z`, false, strT)
+	case "cdec.end":
+		return cdec(`z`, false)
+	case "cdec.badtag":
+		return cdec(`X`, false, strT)
+	case "cdec.simplehdr":
+		return cdec(`Hm1{s6"simple"t}R1z`, false, intT)
+	case "cdec.trunc":
+		return cdec(`Rs5"ab`, false, strT)
+	case "cdec.multi":
+		return cdec(`Ra2{12}z`, false, intT, intT)
+	case "cdec.casterr":
+		return cdec(`Rs2"ab"z`, false, intT)
+	case "cdec.noresult":
+		return cdec(`R1z`, false)
+	case "cdec.panic":
+		return cdec(`R1z`, true, intT)
+	case "fmt.marshal":
+		_, err := io.Marshal([]interface{}{1, "a"})
+		return class(err)
+	case "fmt.marshal-ref":
+		_, err := io.Formatter{Simple: false}.Marshal([]interface{}{"ab", "ab"})
+		return class(err)
+	case "fmt.marshal-unsupported":
+		_, err := io.Marshal(make(chan int))
+		return class(err)
+	case "fmt.unmarshal-ref":
+		var v interface{}
+		return class(io.Formatter{Simple: false}.Unmarshal([]byte(`a2{s2"ab"r1;}`), &v))
+	case "fmt.unmarshal-ref-err":
+		var v interface{}
+		return class(io.Formatter{Simple: false}.Unmarshal([]byte(`a2{s2"ab"r9;}`), &v))
+	case "fmt.unmarshal-ref-panic":
+		return class(io.Formatter{Simple: false}.Unmarshal([]byte(`1`), nil))
+	case "fmt.unmarshalr":
+		var v interface{}
+		return class(io.UnmarshalFromReader(&chunkReader{data: []byte(`a2{s2"ab"s2"cd"}`), n: 3}, &v))
+	case "fmt.unmarshalr-err":
+		var v interface{}
+		return class(io.UnmarshalFromReader(&chunkReader{data: []byte(`a2{s2"ab"`), n: 3}, &v))
+	case "fmt.unmarshalr-panic":
+		return class(io.UnmarshalFromReader(&chunkReader{data: []byte(`1`), n: 3}, nil))
+	}
+	return "unknown-step"
+}
+
+// overlapping uses after the steps: every goroutine must get its own arguments / results back
+func poolConcurrent(plain *core.Service) string {
+	const g, rounds = 8, 60
+	var wrong int64
+	var mu sync.Mutex
+	var wg sync.WaitGroup
+	for k := 0; k < g; k++ {
+		wg.Add(1)
+		go func(k int) {
+			defer wg.Done()
+			bad := 0
+			for r := 0; r < rounds; r++ {
+				a, b := 1000*k+r, 7*k+r+20
+				req := fmt.Sprintf(`Cs3"add"a2{i%d;i%d;}z`, a, b)
+				name, args, err := core.NewServiceCodec().Decode([]byte(req), core.NewServiceContext(plain))
+				if err != nil || name != "add" || len(args) != 2 || args[0] != a || args[1] != b {
+					bad++
+				}
+				ctx := core.NewClientContext()
+				ctx.ReturnType = []reflect.Type{reflect.TypeOf("")}
+				want := fmt.Sprintf("res-%d-%d", k, r)
+				res, err := core.NewClientCodec().Decode([]byte(fmt.Sprintf(`Rs%d"%s"z`, len(want), want)), ctx)
+				if err != nil || len(res) != 1 || res[0] != want {
+					bad++
+				}
+				var v interface{}
+				if err := (io.Formatter{Simple: false}).Unmarshal([]byte(fmt.Sprintf(`a2{s%d"%s"r1;}`, len(want), want)), &v); err != nil {
+					bad++
+				} else if l, ok := v.([]interface{}); !ok || len(l) != 2 || l[0] != want || l[1] != want {
+					bad++
+				}
+			}
+			mu.Lock()
+			wrong += int64(bad)
+			mu.Unlock()
+		}(k)
+	}
+	wg.Wait()
+	return fmt.Sprintf("wrong=%d of %d", wrong, g*rounds*3)
+}
+
+func runPoolUsers(c *c14Case, obs *c14Obs) {
+	debug.SetGCPercent(-1) // the GC empties the pools: a duplicate would disappear with it
+	defer debug.SetGCPercent(100)
+	drainPools()
+	plain := core.NewService()
+	plain.AddFunction(func(a, b int) int { return a + b }, "add")
+	missing := core.NewService()
+	missing.AddFunction(func(a, b int) int { return a + b }, "add")
+	missing.AddMissingMethod(func(name string, args []interface{}) ([]interface{}, error) { return args, nil })
+	held := &heldCoders{}
+	obs.Excl = append(obs.Excl, held.exclusive()) // before any step
+	for _, st := range c.Steps {
+		var o string
+		if st == "conc" {
+			o = poolConcurrent(plain)
+		} else {
+			o = poolStep(st, plain, missing)
+		}
+		obs.Outs = append(obs.Outs, o)
+		obs.Excl = append(obs.Excl, held.exclusive())
+	}
+	for _, d := range held.dec {
+		io.FreeDecoder(d)
+	}
+	for _, e := range held.enc {
+		io.FreeEncoder(e)
+	}
+}
+
 // set by hook_verif.go when built with the tag c14hook
 var runForced func(c *c14Case, obs *c14Obs)
 var runForcedDec func(c *c14Case, obs *c14Obs)
@@ -1089,6 +1366,8 @@ func c14Run(line []byte, out *json.Encoder) error {
 		}
 	case "decrace":
 		runDecRace(&c, &obs)
+	case "poolusers":
+		runPoolUsers(&c, &obs)
 	case "forceddec":
 		if runForcedDec == nil {
 			obs.Note = "no-hook"
